@@ -229,9 +229,13 @@ Fixpoint clip_loop (sp : list species) (tr : list Q) (pixel pixel_diff out : Q) 
   | _, _ => (out, [])
   end.
 
-Definition persist_pixel (sp : list species) (tr : list Q) (pixel : Q) : Q * list Q :=
+Definition persist_pixel_raw (sp : list species) (tr : list Q) (pixel : Q) : Q * list Q :=
   let '(p1, t1) := trap_loop sp tr pixel in
   clip_loop sp t1 p1 (p1 - pixel) p1.
+
+(* the same numbers in lowest terms (Qred), so that fractions stay small over several readouts *)
+Definition persist_pixel (sp : list species) (tr : list Q) (pixel : Q) : Q * list Q :=
+  let '(p, ts) := persist_pixel_raw sp tr pixel in (Qred p, map Qred ts).
 
 (* several readouts: before each call `add` electrons are collected into the pixel *)
 Fixpoint persist_steps (steps : list (Q * list species)) (tr : list Q) (pixel : Q) : Q * list Q :=
@@ -279,19 +283,20 @@ Definition cdm_capture (gm bw pc a no : Q) : Q :=
   then qmax0 ((gm * (a * bw) - no) / (gm * bw + 1) * pc)
   else 0.
 
+(* the results are kept in lowest terms (Qred): same numbers, bounded size along a line *)
 Definition cdm_step (gm bw pc r a no : Q) : Q * Q :=
   let nc := cdm_capture gm bw pc a no in
   let no1 := no + nc in
   let nr := no1 * r in
   let a1 := a + (- (1) * nc + nr) in
   let no2 := no1 - nr in
-  (if Qlt_le_dec a1 thr then 0 else a1, no2).
+  (Qred (if Qlt_le_dec a1 thr then 0 else a1), Qred no2).
 
 Record cdm_par := {
-  gam : nat -> nat -> Q;     (* transfer index i, species k *)
-  pw : Q -> Q;               (* a |-> a ** (beta - 1) *)
-  pcap : nat -> Q -> Q;      (* species k, a |-> capture probability *)
-  rel : nat -> Q             (* species k |-> release probability *)
+  gam : nat -> nat -> Q;          (* transfer index i, species k *)
+  pw : nat -> nat -> Q -> Q;      (* i, k, a |-> a ** (beta - 1)             (a function of a alone in the code) *)
+  pcap : nat -> nat -> Q -> Q;    (* i, k, a |-> capture probability         (a function of k and a in the code) *)
+  rel : nat -> Q                  (* species k |-> release probability *)
 }.
 
 (* inner `for k` loop for one pixel (the pixel value is updated in place between species) *)
@@ -299,7 +304,7 @@ Fixpoint cdm_species (P : cdm_par) (i k : nat) (a : Q) (nos : list Q) : Q * list
   match nos with
   | [] => (a, [])
   | no :: rest =>
-      let '(a1, no1) := cdm_step (gam P i k) (pw P a) (pcap P k a) (rel P k) a no in
+      let '(a1, no1) := cdm_step (gam P i k) (pw P i k a) (pcap P i k a) (rel P k) a no in
       let '(a2, rest') := cdm_species P i (S k) a1 rest in
       (a2, no1 :: rest')
   end.
@@ -317,6 +322,13 @@ Fixpoint cdm_line (P : cdm_par) (i : nat) (px : list Q) (nos : list Q) : list Q 
 Definition cdm_run (P : cdm_par) (nsp : nat) (lines : list (list Q)) : list (list Q) :=
   map (fun px => fst (cdm_line P 0 px (repeat 0 nsp))) lines.
 
+(* every line with its own parameter record (factors that depend on the line) *)
+Fixpoint cdm_run_each (Ps : list cdm_par) (nsp : nat) (lines : list (list Q)) : list (list Q) :=
+  match Ps, lines with
+  | P :: Ps', px :: lines' => fst (cdm_line P 0 px (repeat 0 nsp)) :: cdm_run_each Ps' nsp lines'
+  | _, _ => []
+  end.
+
 (* the range checks of the wrapper `cdm` (as repaired by `fix: cdm rejects a zero 'max_electron_volume' and a zero
    full well capacity`): the two divisors of the capture coefficients are strictly positive *)
 Definition cdm_params_ok (vg beta fwc t : Q) : bool :=
@@ -326,9 +338,20 @@ Definition cdm_params_ok (vg beta fwc t : Q) : bool :=
 (* executable instance for beta = 1: a ** 0 = 1, constant capture probabilities *)
 Definition cdm_par_beta1 (gs pcs rs : list Q) (inj : option Q) : cdm_par :=
   {| gam := fun i k => nth k gs 0 * match inj with Some n => n | None => inject_Z (Z.of_nat i) end;
-     pw := fun _ => 1;
-     pcap := fun k _ => nth k pcs 0;
+     pw := fun _ _ _ => 1;
+     pcap := fun _ k _ => nth k pcs 0;
      rel := fun k => nth k rs 0 |}.
+
+(* executable instance for ANY beta: the values numpy computes for a ** (beta - 1) and for the capture
+   probability at every (packet i, species k) of one line, as a table; (0, 0) where the packet is below the cut *)
+Definition cdm_par_table (gs rs : list Q) (inj : option Q) (tbl : list (list (Q * Q))) : cdm_par :=
+  {| gam := fun i k => nth k gs 0 * match inj with Some n => n | None => inject_Z (Z.of_nat i) end;
+     pw := fun i k _ => fst (nth k (nth i tbl []) (0, 0));
+     pcap := fun i k _ => snd (nth k (nth i tbl []) (0, 0));
+     rel := fun k => nth k rs 0 |}.
+
+Definition fac_ok (f : Q * Q) : bool := Qle_bool 0 (fst f) && Qle_bool 0 (snd f) && Qle_bool (snd f) 1.
+Definition table_ok (tbl : list (list (Q * Q))) : bool := forallb (forallb fac_ok) tbl.
 
 (* ============================================================================================
    Specification (right-hand sides of the theorems) and comparison helpers for the case files *)
@@ -438,6 +461,8 @@ Inductive c15_case :=
 | KPersist (c : pcase)
 | KCdm (lines_in lines_out : list (list Q))                          (* any parameters: specification only *)
 | KCdmG (vg beta fwc t : Q) (raised : bool)                          (* the wrapper's range checks *)
+| KCdmT (gs rs : list Q) (inj : option Q) (tbls : list (list (list (Q * Q)))) (lines_in lines_out : list (list Q))
+                                                                     (* any beta, per-step factors from numpy *)
 | KCdmX (gs pcs rs : list Q) (inj : option Q) (lines_in lines_out : list (list Q)).  (* beta = 1, exact factors *)
 
 Definition kernel_sum_one (l : list Q) : bool := Qeq_bool (qsum l) 1 && Nat.eqb (length l) 9.
@@ -508,6 +533,11 @@ Definition case_mismatch (c : c15_case) : bool :=
   | KCdmX gs pcs rs inj li lo =>
       let sc := 1 + maxabs (concat li) in
       all2 (all2 (close tol_cdm sc)) (cdm_run (cdm_par_beta1 gs pcs rs inj) (length gs) li) lo
+  | KCdmT gs rs inj tbls li lo =>
+      let sc := 1 + maxabs (concat li) in
+      forallb table_ok tbls && Nat.eqb (length tbls) (length li)
+      && all2 (all2 (close tol_cdm sc))
+              (cdm_run_each (map (cdm_par_table gs rs inj) tbls) (length gs) li) lo
   end.
 
 (* inputs are generated inside the documented ranges, so the implementation must not raise and its
@@ -564,6 +594,7 @@ Definition case_violates (c : c15_case) : bool :=
       (* inside the documented ranges the model runs; a refusal is only acceptable outside them *)
       if raised then negb (cdm_params_ok vg beta fwc t) else true
   | KCdmX _ _ _ _ li lo => cdm_spec li lo
+  | KCdmT _ _ _ _ li lo => cdm_spec li lo
   end.
 
 Fixpoint indices_where {A} (f : A -> bool) (l : list A) (i : Z) : list Z :=
